@@ -55,14 +55,19 @@ func Dot(spec *Spec, w io.WriteCloser, fromNode, toNode string) error {
 
 	seen := make(map[string]bool)
 	node := func(name string, n *Node) error {
-		if n == nil {
-			return fmt.Errorf("unknown node '%s'", name)
-		}
-
 		if _, already := seen[name]; already {
 			return nil
 		}
 		seen[name] = true
+
+		if n == nil {
+			// A branch target that isn't a node of this spec
+			// (missing, or a branch-target variable): draw a
+			// placeholder so that the edge still has an end.
+			fmt.Fprintf(w, "  %s [shape=\"%s\", style=\"%s\", color=\"%s\", fillcolor=\"%s\", label=<%s> ]\n",
+				name, "record", "dashed", "red", "#ffffff", name)
+			return nil
+		}
 		label := name
 		if n.Doc != "" {
 			doc := n.Doc
@@ -123,7 +128,7 @@ func Dot(spec *Spec, w io.WriteCloser, fromNode, toNode string) error {
 			log.Printf("process error with %s: %v", name, err)
 			return err
 		}
-		if n.Branches == nil {
+		if n == nil || n.Branches == nil {
 			return nil
 		}
 		log.Printf("  processing %s branches: %d", name, len(n.Branches.Branches))
